@@ -25,7 +25,7 @@ def run_rule_half(ctx):
     info, _ = nf.check_cases(ctx, mode="c40", n=n, module=MODULE, cfg=CFG, diag_cfg=DIAG, chunks=4,
                              extra_env={"VERIF_NF_OFFLOAD": "1"},
                              timeout=900 if ctx.quick else 3000, nontrivial_fn=nontrivial, sig_fn=sig, tag="c41rules")
-    if info["nontrivial_cases"] == 0:
+    if info["nontrivial_cases"] == 0 and not info["rejected"]:   # (rejected cases print no probe statistics)
         raise nf.HarnessError("vacuous: the offload rule never fired in any generated case")
     ctx.notes["rule_half"] = ("hosts as in C40, nftables with NFTablesFlowTableOffload on; forward path x 5 conntrack "
                               "states x (members of no-flow-offload, their neighbours, two other addresses)^2 x interface pairs; "
